@@ -1,4 +1,9 @@
-(* C21 — cryptobyte builders and readers are exact inverses.  Property theorems only. *)
+(* C21 — cryptobyte builders and readers are exact inverses.
+   Property theorems only; each is closed by [exact] of a lemma of proof/C21Proofs.v.
+   Model: model/C21.v (write programs [w], [build] = specification builder,
+   [l_build] = the back-patching builder on the shared buffer; read programs [r],
+   [rd]/[rds] = the String methods; [expects rs ws tail] = the values a matching
+   read program must return for what [ws] wrote, [tail] being the bytes that follow). *)
 From Coq Require Import List NArith ZArith Bool Arith.
 From Verif Require Import Harness.
 From VerifModel Require Import C21.
@@ -6,9 +11,89 @@ From VerifProof Require Import C21Proofs.
 Import ListNotations.
 Open Scope N_scope.
 
-(* an optional reader whose tag is not the next byte (or at the end of the input)
-   returns the default and leaves the input untouched; PeekASN1Tag never consumes *)
+(* MAIN (first sentence of the property; all programs, all nesting depths, any trailing
+   bytes): whatever the Builder wrote, every matching read program — one matching
+   String method per written value, in order, bodies of length-prefixed / ASN.1 blocks
+   read recursively, with optional readers whose tag is absent and PeekASN1Tag
+   interleaved anywhere — succeeds, returns the written values, and leaves exactly the
+   unread remainder.  LIM = 2^32-6: beyond it readASN1's header arithmetic overflows. *)
+Theorem C21_read_build : forall rs ws tail bs vs,
+  build ws = Some bs -> blen bs < LIM -> expects rs ws tail = Some vs ->
+  rds rs (bs ++ tail) = Some (vs, tail).
+Proof. exact read_build. Qed.
+Print Assumptions C21_read_build.
+
+(* the Builder as written (one shared buffer, reserved length bytes, flushChild's
+   back-patching, the content shift for long-form DER lengths, sticky errors) computes
+   the specification builder, from any initial buffer *)
+Theorem C21_flush_child_refines_spec : forall ws res,
+  l_build ws res = option_map (app res) (build ws).
+Proof. exact l_build_refines. Qed.
+Print Assumptions C21_flush_child_refines_spec.
+
+(* a length prefix holds exactly the length of what the continuation wrote; the
+   Builder fails exactly when that length does not fit the prefix *)
+Theorem C21_length_prefix_correct : forall k body,
+  build_w (WLen k body) =
+  match build body with
+  | Some c => if blen c <? 256 ^ N.of_nat k then Some (be_n k (blen c) ++ c) else None
+  | None => None
+  end.
+Proof. exact length_prefix_correct. Qed.
+Print Assumptions C21_length_prefix_correct.
+
+Theorem C21_asn1_header_correct : forall tag body,
+  build_w (WAsn1 tag body) =
+  if tag mod 32 =? 31 then None else
+  match build body with
+  | Some c => match asn1_len_octets (blen c) with Some p => Some (tag :: p ++ c) | None => None end
+  | None => None
+  end.
+Proof. exact asn1_header_correct. Qed.
+Print Assumptions C21_asn1_header_correct.
+
+(* second sentence of the property, tag absent: every optional reader (ReadOptionalASN1,
+   SkipOptionalASN1, ReadOptionalASN1Integer, ...OctetString, ...Boolean) whose tag is not
+   the next byte, or at the end of the input, returns the default and leaves the input
+   untouched; PeekASN1Tag never consumes *)
 Theorem C21_optional_absent_untouched : forall y s a,
   absent_value y (hd_error s) = Some a -> rd y s = Some (a, s).
 Proof. exact absent_untouched. Qed.
 Print Assumptions C21_optional_absent_untouched.
+
+(* tag present: exactly the element is consumed *)
+Theorem C21_optional_present_consumes_element : forall tag c el tail,
+  h_asn1 tag (Some c) = Some el -> blen c < 4294967290 ->
+  rd (ROptAsn1 tag) (el ++ tail) = Some (VOpt true (VBytes c), tail) /\
+  rd (RSkipOpt tag) (el ++ tail) = Some (VUnit, tail).
+Proof. exact optional_present_asn1. Qed.
+Print Assumptions C21_optional_present_consumes_element.
+
+Theorem C21_optional_boolean_present : forall b d tail,
+  rd (ROptBool d) ([1; 1; if b : bool then 255 else 0] ++ tail) = Some (VOpt true (VBool b), tail).
+Proof. exact optional_present_bool. Qed.
+Print Assumptions C21_optional_boolean_present.
+
+(* witness of the defect repaired by commit 46d85f5 (ReadOptionalASN1Boolean parsed the
+   element after the BOOLEAN): the old reader on 01 01 ff 05 00 and 01 01 ff 01 01 00 *)
+Theorem C21_old_optional_boolean_refuted :
+  old_read_optional_bool false [1; 1; 255; 5; 0] = None /\
+  old_read_optional_bool false [1; 1; 255; 1; 1; 0] = Some (false, []) /\
+  rd (ROptBool false) [1; 1; 255; 5; 0] = Some (VOpt true (VBool true), [5; 0]).
+Proof. exact old_optional_bool_refuted. Qed.
+Print Assumptions C21_old_optional_boolean_refuted.
+
+(* INTEGER contents: the three integer writers produce the same octets for the same
+   value (so any integer reader whose range holds the value reads any of them) *)
+Theorem C21_integer_content_unique : forall c c' z,
+  int_content c z -> int_content c' z -> c = c'.
+Proof. exact int_content_unique. Qed.
+Print Assumptions C21_integer_content_unique.
+
+(* the hypotheses of the main theorem are met by a program with nested blocks, a
+   long-form length, present and absent optional readers and trailing bytes *)
+Theorem C21_nonvacuous :
+  exists bs vs, build demo_ws = Some bs /\ blen bs < LIM /\ (200 < blen bs) /\
+                expects demo_rs demo_ws [9; 9] = Some vs /\ length vs = 7%nat.
+Proof. exact demo_nonvacuous. Qed.
+Print Assumptions C21_nonvacuous.
